@@ -1,5 +1,10 @@
 //! E2 `simx`: exploration of a live amiquip connection under a controlled scheduler.
 mod scenarios;
+mod scn_rpc;
+
+fn all_scenarios() -> Vec<&'static dyn Scenario> {
+    vec![&scenarios::Basic, &scenarios::Close, &scenarios::Death, &scn_rpc::Rpc, &scn_rpc::ChClose, &scn_rpc::Wire]
+}
 
 use serde_json::{json, Value};
 use std::collections::{BTreeMap, HashSet};
@@ -11,12 +16,12 @@ fn arg(argv: &[String], name: &str) -> Option<String> {
 }
 
 fn find(name: &str) -> &'static dyn Scenario {
-    for s in scenarios::all() {
+    for s in all_scenarios() {
         if s.name() == name {
             return s;
         }
     }
-    eprintln!("unknown scenario {}; known: {:?}", name, scenarios::all().iter().map(|s| s.name()).collect::<Vec<_>>());
+    eprintln!("unknown scenario {}; known: {:?}", name, all_scenarios().iter().map(|s| s.name()).collect::<Vec<_>>());
     std::process::exit(2);
 }
 
@@ -192,7 +197,7 @@ fn main() {
     }
     match argv[1].as_str() {
         "list" => {
-            for s in scenarios::all() {
+            for s in all_scenarios() {
                 println!("{} ({}) quick variants {} : {}", s.name(), s.property(), s.variants("quick").len(), s.describe());
             }
         }
